@@ -32,7 +32,7 @@ def gen_layout(rng, depth=2):
     nleaf = rng.randint(1, 3)
     for k in range(nleaf):
         name = "leaf%d" % k
-        modes = sorted(rng.sample([0, 1, 2, 3, 5, 8, 20, 33, 100], rng.randint(1, 3)))
+        modes = sorted(rng.sample([0, 1, 2, 3, 5, 8, 9, 16, 17, 20, 24, 33, 100], rng.randint(1, 3)))
         params = rng.sample(["x", "phi", "ab", "a"], 2 if crossed else rng.randint(0, 2))
         stmts = []
         mlist = list(modes)
@@ -177,6 +177,10 @@ def main_case(rng, root):
         su = subs[u]
         for _ in range(rng.randint(1, 3)):
             cm = rng.sample(pool, len(su.modes))
+            if rng.random() < 0.3:
+                # the program applied to its OWN modes, in every order (increasing, reversed, the iteration order of the set, shuffled)
+                own = sorted(su.modes)
+                cm = rng.choice([own, own[::-1], list(set(own)), rng.sample(own, len(own))])
             kw = {p: rng.choice([0.5, 1.25, 2, 7]) for p in su.params}
             kws = ", ".join("%s=%s" % (k, val(v)) for k, v in kw.items())
             lines.append("%s%s | %s" % (u, "(%s)" % kws if kw else "", "[%s]" % ", ".join(map(str, cm))))
